@@ -777,4 +777,8 @@ V("c14-algorithm-keys-rebound", "C14", "break", "R14.11", "jwe.register_key_set 
   "jwe.py", "    for _alg in JWE_ALG_MODELS:\n        KeySet.algorithm_keys[_alg.name] = _alg.key_types\n", "    KeySet.algorithm_keys = {_alg.name: _alg.key_types for _alg in JWE_ALG_MODELS}\n")
 V("c18-iv-through-segment-dict", "C18", "break", "R18.1", "the content IV is read back through obj.bytes_segments.setdefault (re-used on a second encryption of the object)",
   "rfc7516/message.py", "    iv = enc.generate_iv()\n", "    iv = obj.bytes_segments.setdefault(\"iv\", enc.generate_iv())\n")
-
+V("c05-7797-drops-algorithms-for-plain-headers", "C05", "break", "R05.13", "rfc7797.serialize_compact passes `registry` in the algorithms position for headers without b64",
+  "rfc7797/compact.py", "        return _serialize_compact(protected, payload, private_key, algorithms, registry)", "        return _serialize_compact(protected, payload, private_key, registry, registry)")
+V("c04-sender-key-from-public-key", "C04", "break", "R04.9", "encrypt_json resolves the 1PU sender key from public_key",
+  "jwe.py", "        if sender_key and not recipient.sender_key:\n            recipient.sender_key = _guess_sender_key(recipient, sender_key, True)\n        if not recipient.recipient_key:",
+  "        if sender_key and not recipient.sender_key:\n            recipient.sender_key = _guess_sender_key(recipient, public_key, True)\n        if not recipient.recipient_key:")
